@@ -73,6 +73,11 @@ type mModel struct {
 	scalarTouched map[string]bool // "module", "go", "toolchain"
 	scalarID      map[string]int
 	entries       []mEntry // all kinds, in list order per kind
+	// looseRationale: the file has a commented retract block. What the rationale of a retraction in such
+	// a block is depends on where lines end up (a line without comments of its own is explained by the
+	// block's comment; collapsing a one-line block merges the two), which the set/map model does not
+	// follow: C08 then compares retractions by interval only; C15 still compares memory and file in full.
+	looseRationale bool
 	// skipDedup: this reading does not de-duplicate as a side effect of the operation being applied
 	// (the property allows the documented de-duplication, it does not say which operations perform it)
 	skipDedup bool
@@ -924,8 +929,11 @@ func genModText(src *choice.Src, work, bare bool) (string, *mModel) {
 			fmt.Fprintf(&b, "%s%s%s%s\n", indent, verb, gl.tokens, suffix)
 		}
 		if block {
-			if src.Bool(1, 3) && !(bare && kind == "require") && kind != "retract" {
+			if src.Bool(1, 3) && !(bare && kind == "require") && (kind != "retract" || src.Bool(1, 2)) {
 				fmt.Fprintf(&b, "// block comment before %s block\n", kind)
+				if kind == "retract" {
+					m.looseRationale = true
+				}
 			}
 			fmt.Fprintf(&b, "%s (\n", kind)
 			for _, gl := range lines {
